@@ -263,6 +263,7 @@ class Matcher:
         self.collect = True
         self.writer_assume = frozenset()
         self.writer_returns_are_errors = False
+        self.optional_read_prims = set()    # reads that may find nothing (e.g. XML character data before a child element)
 
     def size_equal(self, a, b):
         if isinstance(a, tuple) and isinstance(b, tuple) and a and b and a[0] == "len" and b[0] == "len":
@@ -353,6 +354,10 @@ class Matcher:
                     # prefer the branch whose grammar consumed the writer's events exactly — all did; report
                     raise Mismatch("ambiguous pairing of writer and reader branches with different results", dec[0][2])
             return ok[0][1]
+        if not enc and dec[0][0] == "R" and dec[0][1] in self.optional_read_prims:
+            s2 = dict(subst)
+            s2[dec[0][2]] = C("")
+            return self._m(enc, dec[1:], s2, sinks, conds)
         if not enc and dec[0][0] == "R" and len(dec[0]) > 4 and dec[0][4] == ("rest",):
             s2 = dict(subst)
             s2[dec[0][2]] = ("vec", ())
@@ -362,6 +367,10 @@ class Matcher:
         if not dec:
             raise Mismatch(f"the writer produces data the reader never consumes: {render(enc[:1])}", ev_loc(enc[0]))
         e, d = enc[0], dec[0]
+        if d[0] == "R" and d[1] in self.optional_read_prims and not (e[0] == "W" and self.prim_compat(e[1], d[1])):
+            s2 = dict(subst)
+            s2[d[2]] = C("")
+            return self._m(enc, dec[1:], s2, sinks, conds)
         if e[0] == "W" and d[0] == "R":
             if not self.prim_compat(e[1], d[1]):
                 raise Mismatch(f"wire primitive mismatch: writer emits {e[1]} ({term_str(e[2], 4)}), reader consumes {d[1]}", d[3])
